@@ -187,6 +187,11 @@ func performOn(o op, machines []*xpath.Machine) string {
 		if o.Kind == "runfail" {
 			t.FailAt = map[int]bool{1 + o.Fault: true}
 		}
+		if o.Kind == "runvalid" {
+			// the context's validation mode: every function call is checked against its signature
+			obs := xpx.RunMachineValidating(machines[o.Arg], t.At(ctxPositions[o.Ctx]...))
+			return obs.String() + " calls=" + strings.Join(t.CallStrings(), ",") + " listing=" + machines[o.Arg].PrintMachine()
+		}
 		obs := xpx.RunMachineDebug(machines[o.Arg], t.At(ctxPositions[o.Ctx]...), o.Kind == "rundebug")
 		return obs.String() + " calls=" + strings.Join(t.CallStrings(), ",") + " listing=" + machines[o.Arg].PrintMachine()
 	}
@@ -390,6 +395,12 @@ func run(c *engine.Ctx) {
 		}
 		scenarios = append(scenarios, scenario{Threads: [][]op{{{Kind: "runmach", Arg: a}}, {{Kind: "runmach", Arg: pf[0]}}, {{Kind: "runmach", Arg: pf[1]}}}, Tick: true, Bound: 1})
 	}
+	// contexts in validation mode next to each other, next to a plain run of the same machine and next to
+	// a compilation (scenarios of their own: as a thread program they would pair with every other program)
+	rv := []op{{Kind: "runvalid", Arg: 2}}
+	scenarios = append(scenarios, scenario{Threads: [][]op{rv, rv}, Bound: bound})
+	scenarios = append(scenarios, scenario{Threads: [][]op{rv, {{Kind: "compile", Arg: 1}}}, Bound: bound})
+	scenarios = append(scenarios, scenario{Threads: [][]op{rv, {{Kind: "run", Arg: 2}}}, Tick: true, Bound: tb})
 	c.Note(fmt.Sprintf("%d scenarios; instrumented mutable package variables: %v", len(scenarios), verifrt.StateVars()))
 	for si, sc := range scenarios {
 		if c.Expired() {
@@ -478,6 +489,8 @@ func historyAlphabet() []op {
 	a = append(a, op{Kind: "runfail", Arg: 3, Fault: 2}, op{Kind: "runfail", Arg: 5, Fault: 1}, op{Kind: "runfail", Arg: 5, Fault: 2}, op{Kind: "runfail", Arg: 5, Fault: 3})
 	// runs with the context's debug listing on: a diagnostic aid that must leave the machine as it was
 	a = append(a, op{Kind: "rundebug", Arg: 0}, op{Kind: "rundebug", Arg: 2}, op{Kind: "rundebug", Arg: 3, Ctx: 1})
+	// runs with the context's validation mode on
+	a = append(a, op{Kind: "runvalid", Arg: 2})
 	// the custom function of machine 4 is registered again with another definition (other arity too)
 	a = append(a, op{Kind: "register", Arg: 0}, op{Kind: "register", Arg: 1})
 	return a
@@ -909,6 +922,24 @@ func FreeRun(reps int) int {
 				n++
 			}
 		}
+	}
+	// contexts in validation mode side by side
+	for r := 0; r < reps; r++ {
+		verifrt.RestoreAll()
+		done := make(chan bool, 3)
+		for _, p := range [][]op{{{Kind: "runvalid", Arg: 2}}, {{Kind: "runvalid", Arg: 2}, {Kind: "runvalid", Arg: customMachine, Ctx: 1}}, {{Kind: "compile", Arg: 1}}} {
+			p := p
+			go func() {
+				for _, o := range p {
+					perform(o)
+				}
+				done <- true
+			}()
+		}
+		<-done
+		<-done
+		<-done
+		n++
 	}
 	return n
 }
